@@ -7,6 +7,7 @@ package gatecheckfx
 import (
 	"errors"
 	"io"
+	"strings"
 	"sync"
 )
 
@@ -159,4 +160,37 @@ func leakTryGood(b *box) int {
 		defer b.mu.RUnlock()
 	}
 	return b.n
+}
+
+// ---- string shapes
+func cutGood(name string) string {
+	host := firstPartFx(name, "\x00")
+	host = strings.SplitN(host, "///", 2)[0]
+	return strings.Trim(host, ".")
+}
+func cutBad(name string) string {
+	host := strings.Split(name, "\x00")[1] // keeps the wrong part
+	return strings.Trim(host, ".")
+}
+func firstPartFx(s, sep string) string {
+	before, _, _ := strings.Cut(s, sep)
+	return before
+}
+func joinBuilder(a, b string) string {
+	sb := new(strings.Builder)
+	sb.WriteString(a)
+	sb.WriteString("\x00")
+	sb.WriteString(b)
+	return sb.String()
+}
+func joinLiteral(a, b string) string { return joinFx([]string{a, b}) }
+func joinFx(parts []string) string  { return strings.Join(parts, "\x00") }
+func joinConditional(a, b string, withB bool) string {
+	sb := new(strings.Builder)
+	sb.WriteString(a)
+	if withB {
+		sb.WriteString("\x00")
+		sb.WriteString(b)
+	}
+	return sb.String()
 }
